@@ -34,8 +34,8 @@ type w2sOp struct {
 	IK    int    `json:"ik,omitempty"`   // idempotency key number, 0 = none
 	ITTL  int    `json:"ittl,omitempty"` // seconds, 0 = broker default
 	Ver   uint64 `json:"ver,omitempty"`
-	VE    int    `json:"ve,omitempty"` // version epoch number, 0 = ""
-	HS    int    `json:"hs,omitempty"` // the event handler sleeps this many ms inside this publish
+	VE    int    `json:"ve,omitempty"`    // version epoch number, 0 = ""
+	HS    int    `json:"hs,omitempty"`    // the event handler sleeps this many ms inside this publish
 	Since int    `json:"since,omitempty"` // 0 = no since, 1 = offset relative to the top last seen by the task
 	Rel   int    `json:"rel,omitempty"`
 	EK    int    `json:"ek,omitempty"` // since epoch: 0 last seen, 1 empty, 2 bogus
